@@ -23,6 +23,7 @@ import (
 	"github.com/99designs/gqlgen/graphql/handler/transport"
 	"github.com/vektah/gqlparser/v2/ast"
 	"github.com/vektah/gqlparser/v2/gqlerror"
+	"github.com/vektah/gqlparser/v2/parser"
 	"pgregory.net/rapid"
 
 	"vh/kit"
@@ -261,6 +262,15 @@ func verify(s *proj.Server, c Case, r Request, evs []string, uevents []univ.Even
 			if es.RejectCtx && hasHook(es.Kind, "ctx") {
 				invalid = "extension-context"
 				break
+			}
+		}
+	}
+	if invalid == "" && c.Via == "get" {
+		// the GET transport executes queries only: whatever operation the request selects that is
+		// not a query is refused after the gates, before anything of the operation runs
+		if doc, err := parser.ParseQuery(&ast.Source{Input: r.Query}); err == nil {
+			if op := doc.Operations.ForName(r.OpName); op != nil && op.Operation != ast.Query {
+				invalid = "get-selects-" + string(op.Operation)
 			}
 		}
 	}
@@ -626,6 +636,11 @@ func genCase(t *rapid.T, concurrent bool) Case {
 		}
 		pool = append(pool, r)
 	}
+	// documents with several operations, one of them selected by name
+	pool = append(pool,
+		Request{Query: "query Q { s } mutation M { m3 }", OpName: "M"},
+		Request{Query: "query Q { s } mutation M { m3 }", OpName: "Q"},
+		Request{Query: "mutation M { m3 } query Q { i }", OpName: "Q"})
 	// a valid request that does carry the required variable (what a pooled decoder could leak)
 	pool = append(pool, Request{Query: "query($n: Int!) { echo(n: $n) }", Variables: map[string]any{"n": 5}})
 	for i := 0; i < nreq; i++ {
@@ -639,7 +654,7 @@ func genCase(t *rapid.T, concurrent bool) Case {
 		c.Goroutines = rapid.IntRange(2, 8).Draw(t, "goroutines")
 	}
 	if rapid.IntRange(0, 2).Draw(t, "via") == 0 {
-		c.Via = rapid.SampledFrom([]string{"post", "post", "sse", "mixed"}).Draw(t, "transport")
+		c.Via = rapid.SampledFrom([]string{"post", "post", "sse", "mixed", "get"}).Draw(t, "transport")
 	}
 	return c
 }
